@@ -122,7 +122,8 @@ class NUTS(Sampler):
         self.epsilon_bar_list.append(eps_bar)
 
     def _nuts_target(self, x): # returns logposterior tuple evaluation-gradient
-        return self.target.logd(x), self.target.gradient(x)
+        # copy the gradient: a target may fill and return one persistent work array
+        return self.target.logd(x), np.copy(self.target.gradient(x))
 
     def _sample_adapt(self, N, Nb):
         return self._sample(N, Nb)
